@@ -566,7 +566,10 @@ class EventBus:
                     if current_event is not None and current_handler_id in current_event.event_results:
                         # Only add as child if it's a different event (not forwarding the same event)
                         if event.event_id != current_event.event_id:
-                            current_event.event_results[current_handler_id].event_children.append(event)
+                            handler_children = current_event.event_results[current_handler_id].event_children
+                            # a child dispatched to several buses by the same handler is still one child
+                            if not any(child is event for child in handler_children):
+                                handler_children.append(event)
                 logger.info(
                     f'🗣️ {self}.dispatch({event.event_type}) ➡️ {event.event_type}#{event.event_id[-4:]} (#{self.event_queue.qsize()} {event.event_status})'
                 )
